@@ -1,5 +1,6 @@
 import A2Verif.Model.Hex
 import A2Verif.Model.Fs.Prodos
+import A2Verif.Model.Read.ProdosT
 /-!
 Driver family `fspd` (stateful): the byte-exact tie of the concrete ProDOS model (`Model/Fs/Prodos.lean`).
 
@@ -24,7 +25,7 @@ Afterwards the model adopts the mirror (one defect is reported once; the buffer 
   fspd get <path>          → ok <type> <aux> <eof> <access> <nchunks> <adler> | err:<class>
   fspd free                → ok <n> | err:<class>
   fspd cat <path>          → ok <name>:<blocks>:<label>,… | err:<class>
-  fspd q <item> …          → the answers of the items `free` | `cat=<path>` | `get=<path>`, joined by ` ;; ` (one round trip)
+  fspd q <item> …          → the answers of the items `free` | `readers` | `cat=<path>` | `get=<path>`, joined by ` ;; ` (one round trip)
 
 `<real>` is `ok` or `err:<class>` with the classes of `Err.token`.  Names, paths, times and field bytes are hex.
 -/
@@ -47,6 +48,26 @@ theorem eqBytes_refl (x : List Nat) : eqBytes x x = true := by
 
 /-- unit comparison; units the operation did not touch are the same object in the model's image and in the mirror -/
 def eqUnit (x y : List Nat) : Bool := withPtrEq x y (fun _ => eqBytes x y) (fun h => by subst h; exact eqBytes_refl x)
+
+/-- chunk lists with the same indices and contents (contents are usually the same objects: units of the mirror) -/
+def sameChunks : List (Nat × Bytes) → List (Nat × Bytes) → Bool
+  | [], [] => true
+  | a :: as, b :: bs => a.1 == b.1 && eqUnit a.2 b.2 && sameChunks as bs
+  | _, _ => false
+
+def sameRecs : List FileRec → List FileRec → Bool
+  | [], [] => true
+  | a :: as, b :: bs =>
+    a.path == b.path && a.isDir == b.isDir && a.ftype == b.ftype && a.aux == b.aux && a.access == b.access &&
+      a.locked == b.locked && a.eof == b.eof && a.owned == b.owned && sameChunks a.chunks b.chunks && sameRecs as bs
+  | _, _ => false
+
+/-- the two readings agree -/
+def sameReading (a b : Except String Vol) : Bool :=
+  match a, b with
+  | .ok v, .ok w => v.lo == w.lo && v.hi == w.hi && v.sys == w.sys && sameRecs v.files w.files && v.freeUnits == w.freeUnits && v.label == w.label
+  | .error x, .error y => x == y
+  | _, _ => false
 
 /-- index of the first unit in which the two images differ, from `i` on (`fuel` = units left) -/
 def diffFrom (a b : Array Bytes) : Nat → Nat → Option Nat
@@ -162,13 +183,21 @@ def typeLabel (t : Nat) : String :=
 
 def optNat (s : String) : Option (Option Nat) := if s == "none" then some none else s.toNat?.map some
 
-/-- one query against the model's disk: `free`, `cat=<path>`, `get=<path>` -/
-def query (disk : Disk) (item : String) : String :=
+/-- one query against the model's disk (= the mirror): `free`, `readers`, `cat=<path>`, `get=<path>` -/
+def query (prev : Option Vol) (disk : Disk) (item : String) : String :=
   match item.splitOn "=" with
   | ["free"] =>
     match (statFree disk).1 with
     | .ok n => s!"ok {n}"
     | .error e => s!"err:{e.token}"
+  | ["readers"] =>
+    -- the total reader (about which theorems can be stated) reads what the group's partial reader reads
+    -- (`prev` is the reading family `fs` has just made of the same mirror; it is recomputed only on a mismatch)
+    let t := Read.ProdosT.read disk.raw
+    let quick := match prev with
+      | some v => sameReading (.ok v) t
+      | none => false
+    if quick || sameReading (Read.Prodos.read disk.raw) t then "ok" else "bad readers-differ"
   | ["get", path] =>
     match Hex.ofHex path with
     | some path =>
@@ -185,7 +214,7 @@ def query (disk : Disk) (item : String) : String :=
     | none => "bad-request"
   | _ => "bad-request"
 
-def handle (mirror : Raw) (st : St) (toks : List String) : St × String :=
+def handle (mirror : Raw) (prev : Option Vol) (st : St) (toks : List String) : St × String :=
   match toks with
   | ["format", vn, time, cmp, real] =>
     match Hex.ofHex vn, Hex.ofHex time with
@@ -235,10 +264,10 @@ def handle (mirror : Raw) (st : St) (toks : List String) : St × String :=
         match Hex.ofHex path, Hex.ofHex time with
         | some path, some time => verdict mirror real (mkdir path time disk)
         | _, _ => (st, "bad-request")
-      | ["get", path] => (st, query disk ("get=" ++ path))
-      | ["free"] => (st, query disk "free")
-      | ["cat", path] => (st, query disk ("cat=" ++ path))
-      | "q" :: items => (st, " ;; ".intercalate (items.map (query disk)))
+      | ["get", path] => (st, query prev disk ("get=" ++ path))
+      | ["free"] => (st, query prev disk "free")
+      | ["cat", path] => (st, query prev disk ("cat=" ++ path))
+      | "q" :: items => (st, " ;; ".intercalate (items.map (query prev disk)))
       | _ => (st, "bad-request")
 
 end A2Verif.Drv.FsProdos
